@@ -801,111 +801,169 @@ def c11(ctx):
     import p_gate as _pg
     obs += _pg.extents_forwarded(fx)
     obs += [o for o in _pg.helpers_always_apply(fx) if "allocate_file" in o.key]
-    # parfile: whole-file copy only when not sparse; sparse path copies segments found by SEEK_DATA/HOLE
-    f = fx.fn(COPY_FILE)
-    PS = "libfs::linux::probably_sparse"
-    if f is None:
-        obs.append(anchor_ob("R-ORDER", COPY_FILE))
-    else:
-        for n, (bi, t, h) in enumerate(ro.performers(fx, f, COPY_BYTES, direct_only=True)):
-            ok, why = q.gated(f, bi, "call", PS, False)
-            obs.append(Ob("R-ORDER", mkkey("R-ORDER", COPY_FILE, COPY_BYTES, n, "gated:probably_sparse=False"), ok, q.loc_of(t),
-                          COPY_FILE, "whole-file copy: %s" % why, None if ok else dict(block="bb%d" % bi)))
-        sp = ro.performers(fx, f, COPY_SPARSE, direct_only=True)
-        if not sp:
-            obs.append(anchor_ob("R-ORDER", "copy_file calls copy_sparse"))
-        for n, (bi, t, h) in enumerate(sp):
-            ok, why = q.gated(f, bi, "call", PS, True)
-            obs.append(Ob("R-ORDER", mkkey("R-ORDER", COPY_FILE, COPY_SPARSE, n, "gated:probably_sparse=True"), ok, q.loc_of(t),
-                          COPY_FILE, "segment walk: %s" % why, None if ok else dict(block="bb%d" % bi)))
-    s = fx.fn(COPY_SPARSE)
-    if s is not None:
-        for n, (bi, t) in enumerate(q.calls_to(s, COPY_BYTES)):
-            c, a, ff = q.arg_origin_calls(s, t, 1)
-            ok = "libfs::linux::next_sparse_segments" in c and "std::fs::Metadata::len" not in c
-            obs.append(Ob("R-TABLE", mkkey("R-TABLE", COPY_SPARSE, COPY_BYTES, n, "len<-segments"), ok, q.loc_of(t), COPY_SPARSE,
-                          "length copied per step derives from %s" % sorted(x.split("::")[-1] for x in c),
-                          None if ok else dict(origins=sorted(c))))
-    # parblock
-    b = fx.fn(PB_QFB)
-    if b is None:
-        obs.append(anchor_ob("R-ORDER", PB_QFB))
-    else:
-        obs += parblock_ranges(fx, b)
+    obs += sparse_dispatch(fx)
+    obs += parblock_ranges(fx)
     ctx.add(obs)
 
 
-def parblock_ranges(fx, b):
+PS = "libfs::linux::probably_sparse"
+ME = "libfs::linux::map_extents"
+NSS = "libfs::linux::next_sparse_segments"
+LIBFS_COPY_BYTES = {"libfs::linux::copy_file_bytes", "libfs::fallback::copy_file_bytes"}
+
+
+def copy_hosts(fx):
+    """[(label, view)]: the worker views and, below them, the views of the closures (or not-inlined libxcp helpers)
+    a worker hands the data copy to."""
+    import views
+    out = []
+    seen = set()
+    stop = views.stop_set(fx)
+
+    def rec(lab, v, d):
+        out.append((lab, v))
+        if d >= 3:
+            return
+        for bi, t, how in ro.performers(fx, v, DATA_COPY):
+            if how == "direct":
+                continue
+            for c in [q.names(t)[1]] + list((t.get("fn") or {}).get("fnvals", [])):
+                g = fx.fns.get(c)
+                if g is None or c in seen or c in stop or g.crate != "libxcp":
+                    continue
+                seen.add(c)
+                rec(lab + "/" + ("closure" if g.is_closure else "helper"), views.view(fx, c, depth=6), d + 1)
+    for lab, w in views.workers(fx):
+        rec(lab, w, 0)
+    return out
+
+
+def sparse_dispatch(fx):
+    """Cursor-based copies (libfs copy_file_bytes) in the workers' code: a copy whose length derives from the file
+    size (whole file) runs only when the source is not probably-sparse; a copy whose length derives from
+    next_sparse_segments only when it is."""
     obs = []
-    PS = "libfs::linux::probably_sparse"
-    ME = "libfs::linux::map_extents"
-    # classify every queue_file_range call below queue_file_blocks by the provenance of its range
-    whole_sites = []   # (fn, block) of calls queuing a range not derived from the extent map
-    n = 0
-    for f in [b] + fx.closures_of(b.path):
-        for bi, t in q.calls_to(f, PB_QFR):
+    kinds = {"whole": 0, "segments": 0}
+    for lab, v in copy_hosts(fx):
+        n = 0
+        for bi, t in q.calls_to(v, LIBFS_COPY_BYTES):
+            c, a, ff = q.arg_origin_calls(v, t, 2)
+            kind = "segments" if NSS in c else ("whole" if "std::fs::Metadata::len" in c else "other")
+            if kind == "other":
+                obs.append(Ob("R-TABLE", mkkey("R-TABLE", lab, "copy_file_bytes", n, "len-origin"), False, q.loc_of(t), lab,
+                              "length given to the cursor-based copier derives from neither the file size nor the segment walk: %s"
+                              % sorted(x.split("::")[-1] for x in c), dict(origins=sorted(c))))
+                n += 1
+                continue
+            kinds[kind] += 1
+            want = kind == "segments"
+            ok, why = q.gated(v, bi, "call", PS, want)
+            obs.append(Ob("R-ORDER", mkkey("R-ORDER", lab, "copy_file_bytes", n, "%s:gated:probably_sparse=%s" % (kind, want)), ok,
+                          q.loc_of(t), lab, "%s copy: %s" % ("segment-wise" if want else "whole-file", why),
+                          None if ok else dict(block="bb%d" % bi)))
+            if kind == "segments" and "std::fs::Metadata::len" in c:
+                obs.append(Ob("R-TABLE", mkkey("R-TABLE", lab, "copy_file_bytes", n, "len<-segments-only"), False, q.loc_of(t), lab,
+                              "length copied per segment also derives from the file size", dict(origins=sorted(c))))
             n += 1
-            c, a, ff = q.arg_origin_calls(f, t, 1, table={
-                "core::iter::traits::collect::IntoIterator::into_iter": [0],
-                "core::iter::traits::iterator::Iterator::next": [0]})
-            from_ext = bool(c & {"libfs::common::merge_extents", ME})
-            obs.append(Ob("R-TABLE", mkkey("R-TABLE", f.path, PB_QFR, 0, "range-kind"), True, q.loc_of(t), f.path,
-                          "queued range derives from %s" % ("the extent map" if from_ext else "0..len (whole file)")))
-            if not from_ext:
-                whole_sites.append((f, bi))
-    if n < 2:
-        obs.append(anchor_ob("R-TABLE", "queue_file_range call sites below queue_file_blocks (found %d)" % n))
-    # call sites (in queue_file_blocks) that run a whole-file queue: direct, or through the closure
-    none_regions = []
-    du = defuse(b)
-    for bi, blk in enumerate(b.blocks):
-        if blk.get("cleanup"):
+    if not kinds["whole"] or not kinds["segments"]:
+        obs.append(anchor_ob("R-ORDER", "whole-file and segment-wise cursor copies in the worker roles (found %s)" % kinds))
+    return obs
+
+
+def parblock_ranges(fx):
+    """The role that queues block jobs: a whole-file range (`0..len`) is built only when the source is not
+    probably-sparse or has no extent map, and in both of those cases it is built on every non-failing path."""
+    import views, p_thread
+    obs = []
+    hosts = [(lab, v) for lab, v in copy_hosts(fx) if q.calls_to(v, POOL_EXECUTE)]
+    if not hosts:
+        return [anchor_ob("R-ORDER", "a worker role that queues block jobs on the pool")]
+    for lab, v in hosts:
+        cfg = cfg_of(v)
+        du = defuse(v)
+        execs = q.calls_to(v, POOL_EXECUTE)
+        exec_closures = set(fv for bi, t in execs for fv in t["fn"].get("fnvals", []))
+        # whole-file ranges: Range{const 0, x} aggregates that flow into a block job
+        W = []
+        ext_ranges = 0
+        for bi, b in enumerate(v.blocks):
+            if b.get("cleanup"):
+                continue
+            for s_ in b["stmts"]:
+                rv = s_["rv"]
+                if rv["k"] == "agg" and rv.get("adt") == "core::ops::range::Range" and len(rv["fields"]) == 2 \
+                        and "u64" in v.locals[s_["lhs"]["l"]]["ty"]:
+                    c0 = rv["fields"][0].get("c")
+                    tn, _vc = p_thread.taint_from(v, [s_["lhs"]["l"]], through_bin=True)
+                    flows = False
+                    for b2 in v.blocks:
+                        for s2 in b2["stmts"]:
+                            if s2["rv"]["k"] == "agg" and s2["rv"].get("ak") == "closure" and s2["rv"].get("closure") in exec_closures \
+                                    and any(op_local(o_) in tn for o_ in s2["rv"]["fields"]):
+                                flows = True
+                    if not flows:
+                        # arithmetic on the range ends (len, offsets) breaks plain taint: accept a flow into the
+                        # function that executes the jobs
+                        for b3, t3 in v.calls():
+                            if any(op_local(a_) in tn for a_ in t3["args"]) and (
+                                    POOL_EXECUTE in q.view_reach(fx, v, [b3])):
+                                flows = True
+                        for b3, t3 in execs:
+                            pass
+                    l1 = op_local(rv["fields"][1])
+                    size_end = False
+                    if l1 is not None:
+                        at1, _f1, _s1 = Prov(v, through_bin=False).origins(l1)
+                        size_end = any(a_.kind == "call" and a_.what == "std::fs::Metadata::len" for a_ in at1)
+                    if c0 is not None and c0.get("v") == 0 and flows and size_end:
+                        W.append((bi, s_, flows))
+        Wb = [bi for bi, s_, fl in W]
+        if not W:
+            obs.append(anchor_ob("R-TABLE", "%s builds a whole-file range 0..len" % lab))
             continue
-        for s in blk["stmts"]:
-            rv = s["rv"]
-            if rv["k"] == "discr" and rv.get("adt") == "core::option::Option":
-                atoms, _f, _s = Prov(b).origins(rv["pl"]["l"])
-                if any(a_.kind == "call" and a_.what == ME for a_ in atoms):
-                    for site, how in du.uses.get(s["lhs"]["l"], []):
-                        if how == "switch" and site.is_term and not r_err._is_drop_elab_switch(b, site):
-                            t = site.node
-                            explicit = {int(v): tb for v, tb in t["targets"]}
-                            none_t = explicit.get(0, t["otherwise"])
-                            none_regions.append(edge_region(b, site.bb, none_t) | {none_t})
-    k = 0
-    for (f, bi) in whole_sites:
-        sites = []
-        if f.path == b.path:
-            sites = [bi]
-        else:
-            for b2, t in b.calls():
-                if q.names(t)[1] == f.path:
-                    sites.append(b2)
-        for sbi in sites:
-            ok1, why1 = q.gated(b, sbi, "call", PS, False)
-            ok2 = any(sbi in r for r in none_regions)
-            ok = ok1 or ok2
-            obs.append(Ob("R-ORDER", mkkey("R-ORDER", b.path, "whole-file-queue", k, "not-sparse-or-no-extents"), ok,
-                          q.loc_of(b.blocks[sbi]["term"]), b.path,
-                          "whole-file queue runs only when %s" % ("the file is not sparse" if ok1 else
-                                                                   "no extent map is available" if ok2 else
-                                                                   "?? (reachable for a sparse file with an extent map)"),
-                          None if ok else dict(block="bb%d" % sbi)))
-            k += 1
-    if k == 0:
-        obs.append(anchor_ob("R-ORDER", "no whole-file queue site found in queue_file_blocks"))
-    # an unsupported extent map (None) must lead to a whole-file queue: the Option is matched, not defaulted away
-    whole_blocks = set()
-    for (f, bi) in whole_sites:
-        if f.path == b.path:
-            whole_blocks.add(bi)
-        else:
-            whole_blocks |= set(b2 for b2, t in b.calls() if q.names(t)[1] == f.path)
-    okn = bool(none_regions) and all(any(wb in r for wb in whole_blocks) for r in none_regions)
-    obs.append(Ob("R-ORDER", mkkey("R-ORDER", b.path, "map_extents==None", 0, "no-extents-whole-file"), okn, b.loc(), b.path,
-                  "when extent mapping is unsupported (None) the whole file is queued: %s" % okn,
-                  None if okn else dict(none_regions=[sorted(r)[:6] for r in none_regions],
-                                        note="the Option from map_extents is not matched, or its None arm queues nothing")))
+        none_edges = []
+        for bi, b in enumerate(v.blocks):
+            if b.get("cleanup"):
+                continue
+            for s_ in b["stmts"]:
+                rv = s_["rv"]
+                if rv["k"] == "discr" and rv.get("adt") == "core::option::Option":
+                    atoms, _f, _s = Prov(v).origins(rv["pl"]["l"])
+                    if any(a_.kind == "call" and a_.what == ME for a_ in atoms):
+                        for site, how in du.uses.get(s_["lhs"]["l"], []):
+                            if how == "switch" and site.is_term and not r_err._is_drop_elab_switch(v, site):
+                                t = site.node
+                                explicit = {int(x): tb for x, tb in t["targets"]}
+                                none_edges.append((site.bb, explicit.get(0, t["otherwise"])))
+        ps_false = ro.edge_target(v, "call", PS, False)
+        if not ps_false:
+            obs.append(anchor_ob("R-ORDER", "%s branches on probably_sparse" % lab))
+        if not none_edges:
+            obs.append(anchor_ob("R-ORDER", "%s matches the Option returned by map_extents" % lab))
+        # (i) only then
+        r = cfg.reach([0], blocked_edges=list(ps_false) + none_edges)
+        for k, (bi, s_, fl) in enumerate(W):
+            ok = bi not in r
+            obs.append(Ob("R-ORDER", mkkey("R-ORDER", lab, "whole-file-queue", k, "not-sparse-or-no-extents"), ok,
+                          "%s:%d" % (s_["span"]["file"], s_["span"]["line"]), lab,
+                          "the whole-file range is built only when the file is not sparse or no extent map is available: %s" % ok,
+                          None if ok else dict(block="bb%d" % bi)))
+        # (ii) and then always
+        heads = [bi for bi, t in v.calls() if callee_orig(t) == "core::iter::traits::iterator::Iterator::next" and
+                 "IntoIter<" + OPERATION in " ".join(t.get("arg_tys", []))]
+        exits = heads + p_thread.ok_blocks(v)
+        for k, (u, tgt) in enumerate(none_edges):
+            okn = cfg.passes_through(Wb, tgt, exits)
+            obs.append(Ob("R-ORDER", mkkey("R-ORDER", lab, "map_extents==None", k, "no-extents-whole-file"), okn,
+                          q.loc_of(v.blocks[u]["term"]), lab,
+                          "when extent mapping is unsupported (None) the whole file is queued: %s" % okn,
+                          None if okn else dict(none_edge=(u, tgt))))
+        for k, (u, tgt) in enumerate(ps_false):
+            okn = cfg.passes_through(Wb, tgt, exits)
+            obs.append(Ob("R-ORDER", mkkey("R-ORDER", lab, "probably_sparse==false", k, "whole-file"), okn,
+                          q.loc_of(v.blocks[u]["term"]), lab,
+                          "when the source is not sparse the whole file is queued: %s" % okn,
+                          None if okn else dict(edge=(u, tgt))))
     return obs
 
 
